@@ -6,10 +6,15 @@ import Driver.Accept
 import Driver.View
 import Driver.Avahi
 import Driver.Hub
+import Driver.Pair
 
 def main (args : List String) : IO UInt32 := do
   match args with
   | "reach" :: rest => Driver.reachMain rest
+  | "pairx" :: rest => Driver.Pair.xMain rest
+  | ["pair"] => Driver.Pair.pairMain
+  | "pairgen" :: rest => Driver.Pair.genMain rest
+  | "pairtrace" :: rest => Driver.Pair.traceMain rest
   | ["hub"] => Driver.Hub.hubMain
   | ["avahi"] => Driver.Avahi.avahiMain
   | ["view"] => Driver.View.viewMain
